@@ -432,7 +432,12 @@ impl StateTableDriver<kerx::Subtable4<'_>, kerx::EntryData> for Driver4<'_> {
         _opt: &hb_ot_shape_plan_t,
         buffer: &mut hb_buffer_t,
     ) -> Option<()> {
-        if self.mark_set && entry.is_actionable() && buffer.idx < buffer.len {
+        // `attach_chain` is an i16: a marked glyph more than i16::MAX positions away cannot be
+        // linked (the cast below would wrap and point at an unrelated glyph), so do not attach.
+        let attachable =
+            (self.mark as isize - buffer.idx as isize).unsigned_abs() <= i16::MAX as usize;
+
+        if self.mark_set && entry.is_actionable() && buffer.idx < buffer.len && attachable {
             if let Some(ref ankr_table) = self.ankr_table {
                 let point = aat.anchor_points.get(entry.action_index())?;
 
@@ -457,7 +462,7 @@ impl StateTableDriver<kerx::Subtable4<'_>, kerx::EntryData> for Driver4<'_> {
             let idx = buffer.idx;
             buffer
                 .cur_pos_mut()
-                .set_attach_chain(self.mark as i16 - idx as i16);
+                .set_attach_chain((self.mark as isize - idx as isize) as i16);
             buffer.scratch_flags |= HB_BUFFER_SCRATCH_FLAG_HAS_GPOS_ATTACHMENT;
         }
 
